@@ -101,17 +101,65 @@ ImplNodeTest(F, test, cls, n) ==
     [] OTHER              -> FALSE                               \* testDefault
 
 (* ========================= forward re-evaluation of one match step ========================== *)
+(* XPathExecutionContextDefault::getContextNodeListPosition keeps the position of the LAST node   *)
+(* it was asked about (m_cachedPosition); the cache is cleared when a context node list is pushed *)
+(* or popped, but XPath::predicates() shrinks the current list in place between two predicates    *)
+(* without clearing it: a node that was the last one position() was asked about under predicate   *)
+(* j still reports its OLD position under predicate j+1.  c.pcache switches the cache on (the     *)
+(* algorithm as it is) or off (used only to say where the cache matters, KD_stalePosition...).    *)
+NoCache == [node |-> Null, idx |-> 0]
+WithCache(c, on) == [pcache |-> on] @@ c
+(* the last thing evaluating e does to the cache: "set" - position() was called; "clear" - a      *)
+(* location path or filter expression was evaluated (XPath::step pushes and pops a context node   *)
+(* list); "none".  Operands left to right, and/or short-circuit.                                  *)
+RECURSIVE CacheEvent(_, _), ArgsEvent(_, _, _)
+Later(a, b) == IF b = "none" THEN a ELSE b
+ArgsEvent(args, i, c) == IF i > Len(args) THEN "none" ELSE Later(CacheEvent(args[i], c), ArgsEvent(args, i + 1, c))
+CacheEvent(e, c) ==
+  CASE e.op = "fn"  -> IF e.name = "position" THEN "set" ELSE ArgsEvent(e.args, 1, c)
+    [] e.op = "bin" -> IF e.o \in {"or", "and"}
+                       THEN LET l == Eval(e.a, c) IN
+                            IF Bad(l) \/ ToBool(l) = (e.o = "or") THEN CacheEvent(e.a, c)
+                            ELSE Later(CacheEvent(e.a, c), CacheEvent(e.b, c))
+                       ELSE Later(CacheEvent(e.a, c), CacheEvent(e.b, c))
+    [] e.op = "neg" -> CacheEvent(e.a, c)
+    [] e.op \in {"path", "filter"} -> "clear"
+    [] OTHER -> "none"
+(* one predicate over the current list (the loop of XPath::predicates), threading the cache *)
+RECURSIVE PredPass(_, _, _, _, _)
+PredPass(seq, p, k, cache, c) ==
+  IF k > Len(seq) THEN [kept |-> <<>>, cache |-> cache, bad |-> FALSE]
+  ELSE LET x == seq[k]
+           posk == IF c.pcache /\ cache.node = x THEN cache.idx ELSE k     \* getContextNodeListPosition
+           cc == [c EXCEPT !.n = x, !.pos = posk, !.size = Len(seq)]
+           v == Eval(p, cc)
+           ev == CacheEvent(p, cc)
+           cache2 == CASE ev = "set" -> [node |-> x, idx |-> posk] [] ev = "clear" -> NoCache [] OTHER -> cache
+           rest == PredPass(seq, p, k + 1, cache2, c)
+           keep == ~Bad(v) /\ (IF v.t = "num" THEN NumEq(v.v, FromInt(k)) ELSE ToBool(v))   \* i + 1 != pred->num() || !pred->boolean()
+       IN [kept |-> (IF keep THEN <<x>> ELSE <<>>) \o rest.kept, cache |-> rest.cache, bad |-> Bad(v) \/ rest.bad]
+(* XPath::predicates: predicate after predicate; a number LITERAL is not evaluated, it indexes    *)
+(* the list; nothing is evaluated once the list is empty                                          *)
+RECURSIVE Predicates(_, _, _, _, _)
+Predicates(seq, preds, j, cache, c) ==
+  IF j > Len(preds) THEN seq
+  ELSE IF Len(seq) = 0 THEN <<>>
+  ELSE LET p == preds[j] IN
+       IF p.op = "num"
+       THEN LET ok == p.v.k = "fin" /\ ~p.v.neg /\ p.v.m > 0 /\ p.v.m % Scale = 0 /\ p.v.m \div Scale <= Len(seq) IN
+            Predicates(IF ok THEN <<seq[p.v.m \div Scale]>> ELSE <<>>, preds, j + 1, cache, c)
+       ELSE LET r == PredPass(seq, p, 1, cache, c) IN
+            IF r.bad THEN <<>> ELSE Predicates(r.kept, preds, j + 1, r.cache, c)
 (* XPath::step(parent, startOpPos) for a match op code: eMATCH_ATTRIBUTE -> findAttributes,       *)
 (* eMATCH_*_ANCESTOR -> findChildren, no step recursion; the NodeTester is built with the MATCH   *)
 (* op code as step type (so a NAME test on the attribute list uses the ELEMENT tests and finds    *)
-(* nothing); then predicates(): all predicates of the step with full positional semantics.        *)
+(* nothing); a fresh context node list is pushed (cache cleared); then predicates().              *)
 FindStep(cs, parent, c) ==
   LET F == c.f
       cand == IF cs.code = "MATCH_ATTRIBUTE"
               THEN {x \in Axis(F, "attribute", parent) : ImplNodeTest(F, cs.test, "elem", x)}
               ELSE {x \in Axis(F, "child", parent) : ImplNodeTest(F, cs.test, "elem", x)}
-      r == FilterNodes(DocOrderSeq(cand), cs.preds, c)
-  IN IF r.bad # "" THEN {} ELSE Range(r.s)
+  IN Range(Predicates(DocOrderSeq(cand), cs.preds, 1, NoCache, c))
 HandleFoundIndex(cs, n, c) ==
   LET p == ParentOf(c.f, n) IN IF p = Null THEN FALSE ELSE n \in FindStep(cs, p, c)
 (* (NDEBUG) only looks whether the re-evaluated step found anything *)
@@ -191,11 +239,12 @@ StepPattern(seq, k, ctx0, holder0, c) ==
       holder2 == IF ~holder1 \/ ~score2 THEN score2 ELSE holder1
   IN [node |-> IF score2 THEN sw.node ELSE Null, holder |-> holder2]
 
-(* locationPathPattern / doGetMatchScore / getMatchScore *)
+(* locationPathPattern / doGetMatchScore / getMatchScore (c carries pcache) *)
 ImplMatchesAlt(alt, n, c) ==
   LET seq == Compile(alt) IN Len(seq) > 0 /\ StepPattern(seq, 1, n, FALSE, c).holder
-ImplMatches(P, n, c) == LET as == Alts(P) IN \E i \in 1..Len(as) : ImplMatchesAlt(as[i], n, c)
-ImplMatchSet(P, d, c) == {n \in {Node(d, i) : i \in 1..c.f[d].n} : ImplMatches(P, n, c)}
+ImplMatchesC(P, n, c) == LET as == Alts(P) IN \E i \in 1..Len(as) : ImplMatchesAlt(as[i], n, c)
+ImplMatches(P, n, c0) == ImplMatchesC(P, n, WithCache(c0, TRUE))
+ImplMatchSet(P, d, c0) == {n \in {Node(d, i) : i \in 1..c0.f[d].n} : ImplMatches(P, n, c0)}
 
 (* ================================ known deviations ========================================== *)
 (* Observation points of the walk for node n: the context with which step k's switch is entered  *)
@@ -213,7 +262,7 @@ SomeStep(P, Cond(_, _)) == LET as == Alts(P) IN
 
 (* no backtracking over '//': the step left of '//' had more than one candidate ancestor, only   *)
 (* the nearest one is ever tried against what is further left                                    *)
-KD_descendantNoBacktrack(P, n, c) ==
+KD_descendantNoBacktrack(P, n, c0) == LET c == WithCache(c0, TRUE) IN
   SomeStep(P, LAMBDA seq, k :
      /\ k > 1 /\ seq[k].code = "MATCH_ANY_ANCESTOR"
      /\ LET e == StepEntry(seq, k, n, c) IN
@@ -222,43 +271,50 @@ KD_descendantNoBacktrack(P, n, c) ==
                           ImplNodeTest(c.f, seq[k].test, "elem", x) /\ DoStepPredicate(seq[k], x, 1, TRUE, c)}) >= 2)
 (* '/x//...': eFROM_ROOT reached from a node that is not a child of the document walks up to the *)
 (* document instead of failing                                                                    *)
-KD_anchorLostAfterDescendant(P, n, c) ==
+KD_anchorLostAfterDescendant(P, n, c0) == LET c == WithCache(c0, TRUE) IN
   SomeStep(P, LAMBDA seq, k :
      /\ k = 1 /\ Len(seq) >= 2 /\ seq[1].code = "FROM_ROOT" /\ seq[2].code = "MATCH_ANY_ANCESTOR"
      /\ LET e == StepEntry(seq, 1, n, c) IN e.ok /\ KindOf(c.f, e.ctx) # "root")
 (* a child step with the node test node() matched AT the document node *)
-KD_childNodeTestAcceptsRoot(P, n, c) ==
+KD_childNodeTestAcceptsRoot(P, n, c0) == LET c == WithCache(c0, TRUE) IN
   SomeStep(P, LAMBDA seq, k :
      /\ seq[k].code \in {"MATCH_IMMEDIATE_ANCESTOR", "MATCH_ANY_ANCESTOR"} /\ seq[k].test.t = "node"
      /\ LET x == StepExit(seq, k, n, c) IN x # Null /\ KindOf(c.f, x) = "root")
 (* an attribute step with a node-TYPE test (node(), text(), comment(), processing-instruction()) *)
 (* accepted a node that is not an attribute                                                       *)
-KD_attributeNodeTestAcceptsNonAttributes(P, n, c) ==
+KD_attributeNodeTestAcceptsNonAttributes(P, n, c0) == LET c == WithCache(c0, TRUE) IN
   SomeStep(P, LAMBDA seq, k :
      /\ seq[k].code = "MATCH_ATTRIBUTE" /\ seq[k].test.t \in {"node", "text", "comment", "pi"}
      /\ LET e == StepEntry(seq, k, n, c) IN
         e.ok /\ KindOf(c.f, e.ctx) # "attr" /\ ImplNodeTest(c.f, seq[k].test, "attr", e.ctx))
 (* an attribute step with a NAME test and a predicate that goes through handleFoundIndex: the    *)
 (* re-evaluated step tests the attributes with the element tests and finds nothing                *)
-KD_attributeStepPositionalPredicate(P, n, c) ==
+KD_attributeStepPositionalPredicate(P, n, c0) == LET c == WithCache(c0, TRUE) IN
   SomeStep(P, LAMBDA seq, k :
      /\ seq[k].code = "MATCH_ATTRIBUTE" /\ seq[k].test.t \in {"name", "any", "nsany"}
      /\ LET e == StepEntry(seq, k, n, c) IN
         /\ e.ok /\ ImplNodeTest(c.f, seq[k].test, "attr", e.ctx)
         /\ \E j \in 1..Len(seq[k].preds) : PredIndexed(seq[k].preds[j], e.ctx, c))
 
+(* the stale position cache (see FindStep) changed the answer for n: with a fresh position for    *)
+(* every predicate the same algorithm answers differently                                         *)
+KD_stalePositionAcrossPredicates(P, n, c0) ==
+  ImplMatchesC(P, n, WithCache(c0, TRUE)) # ImplMatchesC(P, n, WithCache(c0, FALSE))
+
 KDKeys == <<"descendantNoBacktrack", "anchorLostAfterDescendant", "childNodeTestAcceptsRoot",
-            "attributeNodeTestAcceptsNonAttributes", "attributeStepPositionalPredicate">>
+            "attributeNodeTestAcceptsNonAttributes", "attributeStepPositionalPredicate", "stalePositionAcrossPredicates">>
 KD(key, P, n, c) ==
   CASE key = "descendantNoBacktrack"                 -> KD_descendantNoBacktrack(P, n, c)
     [] key = "anchorLostAfterDescendant"             -> KD_anchorLostAfterDescendant(P, n, c)
     [] key = "childNodeTestAcceptsRoot"              -> KD_childNodeTestAcceptsRoot(P, n, c)
     [] key = "attributeNodeTestAcceptsNonAttributes" -> KD_attributeNodeTestAcceptsNonAttributes(P, n, c)
     [] key = "attributeStepPositionalPredicate"      -> KD_attributeStepPositionalPredicate(P, n, c)
+    [] key = "stalePositionAcrossPredicates"         -> KD_stalePositionAcrossPredicates(P, n, c)
 (* direction of each class: a false positive (the algorithm accepts, the definition does not) or *)
 (* a false negative                                                                              *)
-KDExtraKeys   == {"anchorLostAfterDescendant", "childNodeTestAcceptsRoot", "attributeNodeTestAcceptsNonAttributes"}
-KDMissingKeys == {"descendantNoBacktrack", "attributeStepPositionalPredicate"}
+KDExtraKeys   == {"anchorLostAfterDescendant", "childNodeTestAcceptsRoot", "attributeNodeTestAcceptsNonAttributes",
+                  "stalePositionAcrossPredicates"}
+KDMissingKeys == {"descendantNoBacktrack", "attributeStepPositionalPredicate", "stalePositionAcrossPredicates"}
 KDKeysOf(P, n, c) == {key \in Range(KDKeys) : KD(key, P, n, c)}
 (* the classes that explain the disagreement at node n, given what the algorithm answered there *)
 KDExplains(P, n, c, implSays) == {key \in (IF implSays THEN KDExtraKeys ELSE KDMissingKeys) : KD(key, P, n, c)}
